@@ -31,7 +31,7 @@ OpOf(e) == IF e.name \in TwoPath THEN [name |-> e.name, p |-> e.p, q |-> e.q]
 Creates(name) == name \in {"write", "wstream", "mkdir", "copyfile"}
 Target(op) == IF op.name \in TwoPath THEN op.q ELSE op.p
 Call == /\ l <= Len(TraceLog) /\ Ev.ev = "call" /\ Adv /\ Ev.t \notin DOMAIN pend
-        /\ pend' = [x \in DOMAIN pend \cup {Ev.t} |-> IF x = Ev.t THEN [op |-> OpOf(Ev), done |-> FALSE, res |-> ERR, born |-> {}, rmd |-> {}] ELSE pend[x]]
+        /\ pend' = [x \in DOMAIN pend \cup {Ev.t} |-> IF x = Ev.t THEN [op |-> OpOf(Ev), done |-> FALSE, res |-> ERR, born |-> {}, rmd |-> {}, got |-> "none"] ELSE pend[x]]
         /\ UNCHANGED tree
 \* nodes created by this step are remembered by every pending remove (for the deviation)
 Born(newTree) == DOMAIN newTree \ DOMAIN tree
@@ -51,9 +51,26 @@ MkParent == /\ UNCHANGED l
                     /\ pre \notin DOMAIN tree /\ (k = 1 \/ IsDir(tree, SubSeq(tg, 1, k - 1)))
                     /\ tree' = Ext(tree, [x \in {pre} |-> "D"])
                     /\ pend' = NoteBorn(t, tree')
+\* a file copy is not one atomic step of the code: it reads the complete source value at one moment and writes
+\* the destination at a later one (the statement asks for complete written values, not for atomic copies)
+LinCopyRead == /\ UNCHANGED <<l, tree>>
+               /\ \E t \in DOMAIN pend :
+                  LET p == pend[t] IN
+                  /\ ~p.done /\ p.op.name = "copyfile" /\ p.got = "none"
+                  /\ IF IsFile(tree, p.op.p)
+                     THEN pend' = [pend EXCEPT ![t].got = tree[p.op.p]]
+                     ELSE pend' = [pend EXCEPT ![t].done = TRUE, ![t].res = ERR]
+LinCopyWrite == /\ UNCHANGED l
+                /\ \E t \in DOMAIN pend :
+                   LET p == pend[t] IN
+                   /\ ~p.done /\ p.op.name = "copyfile" /\ p.got # "none"
+                   /\ \E o \in (IF p.op.q \in DOMAIN tree THEN { O(tree, ERR) } ELSE {})           \* corner U3
+                              \cup Apply(tree, [name |-> "write", p |-> p.op.q, d |-> p.got]) :
+                        /\ tree' = o.t
+                        /\ pend' = [NoteBorn(t, o.t) EXCEPT ![t].done = TRUE, ![t].res = o.res]
 Lin == /\ UNCHANGED l
        /\ \E t \in DOMAIN pend :
-          /\ ~pend[t].done
+          /\ ~pend[t].done /\ pend[t].op.name # "copyfile"
           /\ \E o \in Apply(tree, pend[t].op) :
                /\ tree' = o.t
                /\ pend' = [NoteBorn(t, o.t) EXCEPT ![t].done = TRUE, ![t].res = o.res]
@@ -91,7 +108,7 @@ Ret == /\ l <= Len(TraceLog) /\ Ev.ev = "ret" /\ Adv
        /\ Ev.t \in DOMAIN pend /\ pend[Ev.t].done /\ pend[Ev.t].res = SeqSet(Ev.res)
        /\ pend' = [x \in DOMAIN pend \ {Ev.t} |-> pend[x]] /\ UNCHANGED tree
 Final == /\ l <= Len(TraceLog) /\ Ev.ev = "final" /\ Adv /\ pend = << >> /\ tree = TreeVal(Ev.tree) /\ UNCHANGED <<tree, pend>>
-TraceNext == Reset \/ Call \/ MkParent \/ Lin \/ LinContendedFail \/ LinDev \/ LinRemoveDir \/ LinLostCreate \/ Ret \/ Final
+TraceNext == Reset \/ Call \/ MkParent \/ Lin \/ LinCopyRead \/ LinCopyWrite \/ LinContendedFail \/ LinDev \/ LinRemoveDir \/ LinLostCreate \/ Ret \/ Final
 TraceSpec == Init /\ [][TraceNext]_tvars
 HighWater == TLCSet(1, IF TLCGet(1) < l THEN l ELSE TLCGet(1))
 TraceAccepted == IF TLCGet(1) = Len(TraceLog) + 1 THEN TRUE ELSE Print(<<"HIGHWATER", TLCGet(1)>>, FALSE)
